@@ -271,7 +271,11 @@ where
                     (None, None, vec![])
                 }
             }
-            SpacesArgs::SpaceUpdate { .. } => unimplemented!(),
+            // Space updates are not supported yet, reject them instead of crashing on messages
+            // other peers can send us.
+            SpacesArgs::SpaceUpdate { .. } => {
+                return Err(ManagerError::UnsupportedMessage(message.hash()));
+            }
             // Received encrypted application data for a space.
             SpacesArgs::Application { space_id, .. } => {
                 let Some(space) = self.space(*space_id).await? else {
@@ -738,6 +742,9 @@ where
 
     #[error("unexpected message variant, expected auth {0}")]
     IncorrectMessageVariant(Hash),
+
+    #[error("received message with id {0} of a kind which is not supported yet")]
+    UnsupportedMessage(Hash),
 
     #[error(transparent)]
     Rng(#[from] RngError),
